@@ -296,18 +296,22 @@ class NumericalExpressionTree:
         return NumericalExpressionTree(self._copy_internal(self.root))
 
     def _convert_to_pddl(
-        self, node: AnyNode, decimal_digits: int = DEFAULT_DIGITS
+        self, node: AnyNode, decimal_digits: Optional[int] = DEFAULT_DIGITS
     ) -> str:
         """Recursive method that converts the expression tree to a PDDL string.
 
         :param node: the node that the recursion is currently working on.
-        :param decimal_digits: the number of decimal digits to show in the PDDL string.
+        :param decimal_digits: the number of decimal digits to show in the PDDL string,
+            None prints every constant exactly (so that reading it back gives the same number).
         :return: the PDDL string of the expression.
         """
         if node.is_leaf:
             if isinstance(node.value, PDDLFunction):
                 function: PDDLFunction = node.value
                 return function.untyped_representation
+
+            if decimal_digits is None:
+                return repr(float(node.value))
 
             return (
                 "{number:.{digits}f}".format(number=node.value, digits=decimal_digits)
@@ -343,10 +347,10 @@ class NumericalExpressionTree:
         right_operand = self._convert_to_mathematical(node.children[1])
         return f"({left_operand} {node.value} {right_operand})"
 
-    def to_pddl(self, decimal_digits: int = DEFAULT_DIGITS) -> str:
+    def to_pddl(self, decimal_digits: Optional[int] = DEFAULT_DIGITS) -> str:
         """Method that converts the expression tree to a PDDL string.
 
-        :param decimal_digits: the number of decimal digits to show in the PDDL string.
+        :param decimal_digits: the number of decimal digits to show in the PDDL string (None - exact constants).
         :return: the PDDL string of the expression.
         """
         return self._convert_to_pddl(self.root, decimal_digits=decimal_digits)
